@@ -4,7 +4,10 @@ import (
 	"context"
 	"fmt"
 	"net"
+	"os"
 	"strings"
+	"sync"
+	"time"
 
 	proto4 "go.sia.tech/core/rhp/v4"
 	"go.sia.tech/core/types"
@@ -14,7 +17,7 @@ import (
 
 // A fault is what goes wrong in one attempt.
 type fault struct {
-	kind string // none | dial | drop | cancel | rcall | hcall | corrupt | midmine
+	kind string // none | dial | drop | cancel | rcall | hcall | corrupt | midmine | silent
 	pos  int    // message index (drop, cancel, corrupt)
 	name string // call name (rcall, hcall) or corruption name
 	// corrupt: the mutation and what the model is told it does (the first check it trips, or
@@ -33,6 +36,8 @@ func (f fault) String() string {
 		return fmt.Sprintf("%s %d", f.kind, f.pos)
 	case "rcall", "hcall", "midmine":
 		return f.kind + " " + f.name
+	case "silent":
+		return fmt.Sprintf("silent %d %s", f.pos, f.name)
 	}
 	return fmt.Sprintf("corrupt %d %s", f.pos, f.effect)
 }
@@ -58,6 +63,58 @@ type observation struct {
 	rBefore, rAfter, hBefore, hAfter int // reserved-but-unspent outputs
 	reached                          int
 	dialed                           bool
+	// stream deadline bookkeeping (simulated clock)
+	ctxHasDeadline bool
+	deadlineArmed  bool          // the client armed the stream with a deadline …
+	deadlineIn     time.Duration // … this far in the future
+	hung           bool          // the call did not return although its stream's time was up
+}
+
+// clockConn is the renter's end of a stream under a simulated clock: it records the deadline the
+// client arms and never lets real time expire it; expire(now) plays "the clock has reached now".
+type clockConn struct {
+	net.Conn
+	mu       sync.Mutex
+	set      bool
+	deadline time.Time
+	armedAt  time.Time
+	timedOut bool
+}
+
+func (c *clockConn) SetDeadline(t time.Time) error {
+	c.mu.Lock()
+	c.set, c.deadline, c.armedAt = true, t, time.Now()
+	c.mu.Unlock()
+	return nil
+}
+func (c *clockConn) SetReadDeadline(t time.Time) error  { return c.SetDeadline(t) }
+func (c *clockConn) SetWriteDeadline(t time.Time) error { return nil }
+
+func (c *clockConn) Read(p []byte) (int, error) {
+	n, err := c.Conn.Read(p)
+	if err != nil {
+		c.mu.Lock()
+		to := c.timedOut
+		c.mu.Unlock()
+		if to {
+			return n, os.ErrDeadlineExceeded
+		}
+	}
+	return n, err
+}
+
+// expire: the clock reaches now; a stream whose deadline has passed fails its pending I/O.
+func (c *clockConn) expire(now time.Time) bool {
+	c.mu.Lock()
+	due := c.set && !c.deadline.IsZero() && !c.deadline.After(now)
+	if due {
+		c.timedOut = true
+	}
+	c.mu.Unlock()
+	if due {
+		c.Conn.Close()
+	}
+	return due
 }
 
 // reserved counts the outputs a wallet holds back: unspent, mature, not spent by any pool
@@ -150,6 +207,13 @@ func (w *world) attempt(rpc string, f fault) observation {
 	}
 	ctx, cancel := context.WithCancel(context.Background())
 	defer cancel()
+	if f.kind == "silent" && f.name == "ctx-deadline" {
+		var c2 context.CancelFunc
+		ctx, c2 = context.WithTimeout(ctx, 60*time.Millisecond)
+		defer c2()
+		o.ctxHasDeadline = true
+	}
+	held, release := make(chan struct{}), make(chan struct{})
 	ip := &rhpc.Interposer{Steps: stepsOf(rpc)}
 	ip.Hook = func(i int, m *rhpc.Msg) {
 		if i != f.pos {
@@ -165,6 +229,12 @@ func (w *world) attempt(rpc string, f fault) observation {
 			if m.Obj != nil {
 				f.mut(m)
 			}
+		case "silent":
+			// the peer goes silent: the message is neither delivered nor is the stream closed,
+			// until the renter has given up
+			close(held)
+			<-release
+			m.Close = true
 		case "midmine":
 			// blocks arrive at the host after it sent its inputs and before the renter's
 			// signatures reach it: the funding basis is no longer the tip in the final phase
@@ -172,12 +242,21 @@ func (w *world) attempt(rpc string, f fault) observation {
 		}
 	}
 	var tr *rhpc.Client
+	var cc *clockConn
 	if f.kind == "dial" {
 		tr = rhpc.FailingClient(w.h.Key.PublicKey())
 	} else {
 		tr = rhpc.Interposed(w.h, ip)
 		inner := tr.Dial
-		tr.Dial = func(c context.Context) (net.Conn, error) { o.dialed = true; return inner(c) }
+		tr.Dial = func(c context.Context) (net.Conn, error) {
+			o.dialed = true
+			conn, err := inner(c)
+			if err != nil {
+				return conn, err
+			}
+			cc = &clockConn{Conn: conn}
+			return cc, nil
+		}
 	}
 	cs := w.rn.CM.TipState()
 	hostTip := w.hn.CM.Tip().Height
@@ -193,35 +272,70 @@ func (w *world) attempt(rpc string, f fault) observation {
 		}
 		allowance = collateral.Div64(2).Add(types.Siacoins(10))
 	}
-	switch rpc {
-	case "form":
-		params := proto4.RPCFormContractParams{
-			RenterPublicKey: w.renterKey.PublicKey(), RenterAddress: w.rn.W.Address(),
-			Allowance: allowance, Collateral: collateral, ProofHeight: hostTip + 300,
+	done := make(chan struct{})
+	go func() {
+		defer close(done)
+		switch rpc {
+		case "form":
+			params := proto4.RPCFormContractParams{
+				RenterPublicKey: w.renterKey.PublicKey(), RenterAddress: w.rn.W.Address(),
+				Allowance: allowance, Collateral: collateral, ProofHeight: hostTip + 300,
+			}
+			o.want, _ = proto4.NewContract(w.prices, params, w.h.Key.PublicKey(), w.settings.WalletAddress)
+			res, err := rhp4.RPCFormContract(ctx, tr, w.pool, w.signer, cs, w.prices, w.h.Key.PublicKey(), w.settings.WalletAddress, params)
+			o.err, o.contract, o.set = err, res.Contract, res.FormationSet
+		case "renew":
+			params := proto4.RPCRenewContractParams{ContractID: w.existing.ID, Allowance: allowance, Collateral: collateral, ProofHeight: w.existing.Revision.ProofHeight + 10}
+			ren, _ := proto4.RenewContract(w.existing.Revision, w.prices, w.settings.WalletAddress, params)
+			o.want, o.wantID = ren.NewContract, w.existing.ID.V2RenewalID()
+			res, err := rhp4.RPCRenewContract(ctx, tr, w.pool, w.signer, cs, w.prices, w.settings.WalletAddress, w.existing.Revision, params)
+			o.err, o.contract, o.set = err, res.Contract, res.RenewalSet
+		case "refresh-full", "refresh-partial":
+			params := proto4.RPCRefreshContractParams{ContractID: w.existing.ID, Allowance: allowance, Collateral: collateral}
+			var ren types.V2FileContractRenewal
+			var res rhp4.RPCRefreshContractResult
+			var err error
+			if rpc == "refresh-full" {
+				ren, _ = proto4.RefreshContractFullRollover(w.existing.Revision, w.prices, w.settings.WalletAddress, params)
+				res, err = rhp4.RPCRefreshContractFullRollover(ctx, tr, w.pool, w.signer, cs, w.prices, w.settings.WalletAddress, w.existing.Revision, params)
+			} else {
+				ren, _ = proto4.RefreshContractPartialRollover(w.existing.Revision, w.prices, w.settings.WalletAddress, params)
+				res, err = rhp4.RPCRefreshContractPartialRollover(ctx, tr, w.pool, w.signer, cs, w.prices, w.settings.WalletAddress, w.existing.Revision, params)
+			}
+			o.want, o.wantID = ren.NewContract, w.existing.ID.V2RenewalID()
+			o.err, o.contract, o.set = err, res.Contract, res.RenewalSet
 		}
-		o.want, _ = proto4.NewContract(w.prices, params, w.h.Key.PublicKey(), w.settings.WalletAddress)
-		res, err := rhp4.RPCFormContract(ctx, tr, w.pool, w.signer, cs, w.prices, w.h.Key.PublicKey(), w.settings.WalletAddress, params)
-		o.err, o.contract, o.set = err, res.Contract, res.FormationSet
-	case "renew":
-		params := proto4.RPCRenewContractParams{ContractID: w.existing.ID, Allowance: allowance, Collateral: collateral, ProofHeight: w.existing.Revision.ProofHeight + 10}
-		ren, _ := proto4.RenewContract(w.existing.Revision, w.prices, w.settings.WalletAddress, params)
-		o.want, o.wantID = ren.NewContract, w.existing.ID.V2RenewalID()
-		res, err := rhp4.RPCRenewContract(ctx, tr, w.pool, w.signer, cs, w.prices, w.settings.WalletAddress, w.existing.Revision, params)
-		o.err, o.contract, o.set = err, res.Contract, res.RenewalSet
-	case "refresh-full", "refresh-partial":
-		params := proto4.RPCRefreshContractParams{ContractID: w.existing.ID, Allowance: allowance, Collateral: collateral}
-		var ren types.V2FileContractRenewal
-		var res rhp4.RPCRefreshContractResult
-		var err error
-		if rpc == "refresh-full" {
-			ren, _ = proto4.RefreshContractFullRollover(w.existing.Revision, w.prices, w.settings.WalletAddress, params)
-			res, err = rhp4.RPCRefreshContractFullRollover(ctx, tr, w.pool, w.signer, cs, w.prices, w.settings.WalletAddress, w.existing.Revision, params)
-		} else {
-			ren, _ = proto4.RefreshContractPartialRollover(w.existing.Revision, w.prices, w.settings.WalletAddress, params)
-			res, err = rhp4.RPCRefreshContractPartialRollover(ctx, tr, w.pool, w.signer, cs, w.prices, w.settings.WalletAddress, w.existing.Revision, params)
+	}()
+	if f.kind == "silent" {
+		select {
+		case <-held:
+			// the peer is silent now.  Without a context deadline the stream's own deadline is
+			// all that can end the call: let the clock pass the default stream timeout.
+			if !o.ctxHasDeadline && cc != nil {
+				cc.expire(time.Now().Add(2*time.Minute + time.Second))
+			}
+			select {
+			case <-done:
+			case <-time.After(2 * time.Second):
+				o.hung = true
+			}
+			close(release)
+			if o.hung {
+				cc.Conn.Close() // free the goroutine so that the world can go on
+				<-done
+			}
+		case <-done:
+			close(release) // the exchange ended before the message was due
 		}
-		o.want, o.wantID = ren.NewContract, w.existing.ID.V2RenewalID()
-		o.err, o.contract, o.set = err, res.Contract, res.RenewalSet
+	} else {
+		<-done
+		close(release)
+	}
+	if cc != nil {
+		cc.mu.Lock()
+		o.deadlineArmed = cc.set && !cc.deadline.IsZero()
+		o.deadlineIn = cc.deadline.Sub(cc.armedAt)
+		cc.mu.Unlock()
 	}
 	cancel()
 	if o.dialed && !ip.Wait() {
